@@ -14,7 +14,7 @@ from .. import trace_solver as ts
 C02_INV = ['TypeOK', 'C02_FirstConv', 'C02_SolvedIffTrue', 'C02_Fail', 'C02_Rejected', 'C02_Complete', 'C02_Hooks', 'C04_OnlyT']
 C06_INV = ['C06_Raise', 'C06_Skip', 'C06_KeepGoing', 'C06_Statuses', 'C06_Chained', 'C06_NoStoreOnCatch', 'C06_NeverJudged']
 ALL_INV = C02_INV + C06_INV
-ACTIONS = ['GuardMinMax', 'OffsetStep', 'PreCheck', 'DoBefore', 'LoopHead', 'DoPass', 'Judge', 'DoAfter', 'Stamp', 'Return']
+ACTIONS = ['GuardMinMax', 'GuardFeasible', 'OffsetStep', 'PreCheck', 'DoBefore', 'LoopHead', 'DoPass', 'Judge', 'DoAfter', 'Stamp', 'Return']
 
 SLICES = {
     # name: (Cfgs, EqOuts, HookOuts, HookWrites)
